@@ -43,11 +43,31 @@ FIXED = [
  ("C11", "KDTree construction terminates", "KDTree construction looped forever when the pivot equals the largest coordinate on every axis (repeated / collinear / clustered points), all three strategies"),
  ("C11", "KDTree.query only prunes once k candidates", "KDTree.query pruned subtrees with fewer than k candidates held: fewer than min(k,n) results or a farther point returned"),
  ("C17", "Tutte square boundary no longer stacks", "TutteEmbedding(boundary_mode='square') placed the first vertex of sides 2-4 on the preceding corner: coincident border positions and zero-area triangles for every border of >= 5 vertices"),
+ ("C15", "border cycles follow border edges", "extract_border_cycle / _all / extract_boundary_of_surface followed interior edges between border vertices and started on a non-border edge when sort_neighborhoods is off"),
+ ("C15", "feature detector reads the hard_edges attribute by value", "FeatureEdgeDetector iterated the hard_edges attribute: TypeError for a dense attribute, edges explicitly set to False treated as hard"),
+ ("C15", "feature detector clears corner orders", "FeatureEdgeDetector kept corner orders of a previous detection on vertices that are no longer feature vertices"),
+ ("C15", "face_normals uses the whole polygon", "face_normals took the first three vertices of a face: flipped normal on planar non-convex polygons (flat interior edges flagged as sharp features)"),
+ ("C08", "volume_laplacian uses the signed cotangent", "volume_laplacian used abs() of the dihedral cotangent: wrong operator on meshes with an obtuse dihedral angle"),
+ ("C08", "face and cell mass matrices work on meshes with a single", "area_weight_matrix_faces / volume_weight_matrix_cells raised TypeError on a one-face / one-cell mesh (0-d array)"),
+ ("C08", "laplacian always has shape", "operators.laplacian returned a truncated matrix when the last vertices belong to no face (no shape= argument)"),
+ ("C08", "vertex_to_face_operator documents", "vertex_to_face_operator documented |V| x |F| / M[v,f] but returns |F| x |V|"),
+ ("C07", "mean_edge_length / mean_face_area / mean_cell_volume divide", "mean_edge_length / mean_face_area / mean_cell_volume divided by the requested n although only min(n, N) elements were summed"),
+ ("C07", "triangle_aspect_ratio returns its attribute", "triangle_aspect_ratio returned None (no return statement) and raised on non-triangular faces"),
+ ("C07", "interpolation functions reset the output attribute", "interpolate_faces_to_vertices / average_corners_to_vertices / average_corners_to_faces accumulated onto an output attribute that already held values (constants no longer interpolated to the constant)"),
+ ("C18", "face-based frame fields align order-n frames", "face-based frame field constraint hard-coded **4: for orders != 4 no branch was tangent to the border/feature edge unless the face basis happens to be aligned with it (custom connections)"),
  ("C14", "circumcenter lies in the plane", "geometry.circumcenter dropped the normal offset of the triangle's plane (dual_mesh circumcenter mode put vertices in the wrong plane)"),
 ]
 
 # (property, (subcheck, callee, kind, input_class), what fails, optional tiers)
+_C18B = "face-based frame field: a face with two border/feature edges takes its constraint from whichever of them has the largest edge id and its basis from the first one in face order, so the field depends on which vertex such a face is listed from (repair = average the constraints as the vertex version does: a behaviour change for the maintainer to decide)"
+_C18C = "vertex-based frame field with smooth_normals=True and even order: the constraint at interior feature (crease) vertices is computed by geometric projection in a basis whose X axis is the first ring edge while transport uses flattened chart angles, so the constrained direction moves by a few degrees when a face is listed from another vertex (repair = a canonical basis at crease vertices: redesign)"
 KNOWN = [
+ ("C18", ("C18.invariance.face_start", "SurfaceFrameField(faces).run", "mismatch:direction_relative_to_edge", "order!=4:faces:bordered:ns0:feat:corner_faces"), _C18B),
+ ("C18", ("C18.invariance.face_start", "SurfaceFrameField(faces).run", "mismatch:direction_relative_to_edge", "order!=4:faces:bordered:ns0:nofeat:corner_faces"), _C18B),
+ ("C18", ("C18.invariance.face_start", "SurfaceFrameField(faces).run", "mismatch:direction_relative_to_edge", "order4:faces:bordered:ns0:feat:corner_faces"), _C18B),
+ ("C18", ("C18.invariance.face_start", "SurfaceFrameField(faces).run", "mismatch:direction_relative_to_edge", "order4:faces:bordered:ns0:nofeat:corner_faces"), _C18B),
+ ("C18", ("C18.invariance.face_start", "SurfaceFrameField(vertices).run", "mismatch:direction_relative_to_edge", "order!=4:vertices:bordered:ns0:feat:interior_feature_vertices:geometric_init"), _C18C),
+ ("C18", ("C18.invariance.face_start", "SurfaceFrameField(vertices).run", "mismatch:direction_relative_to_edge", "order4:vertices:bordered:ns0:feat:interior_feature_vertices:geometric_init"), _C18C),
  ("C05", ("C05.last_written", "ArrayAttribute.__setitem__", "mismatch:truncated", "str:len>32"), "string attribute values longer than 32 characters are truncated by the dense storage (fixed-width '<U32' cells, a documented design limit; repair = object dtype / dynamic width, a redesign)"),
  ("C05", ("C05.last_written", "Attribute.as_array", "mismatch:truncated", "str:len>32"), "string attribute values longer than 32 characters are truncated by the sparse storage's array export ('<U32')"),
  ("C05", ("C05.last_written", "Attribute.__setitem__", "mismatch:truncated", "str:len>32"), "string vector values longer than 32 characters are truncated by the sparse storage ('<U32', same limit as the dense storage)"),
